@@ -9,7 +9,6 @@ import PbBss.Model.Optimal
 Masks are `Fin K → Fin F → Fin T → α` (class, bin, frame), exactly the documented `(K, F, T)` layout. -/
 namespace PbBss.Align
 
-instance : NatCast Float := ⟨Float.ofNat⟩
 
 /-! Tables: compiled Lean re-evaluates a definition that *returns a function* at every application, so
 state that is carried through loops is stored as data (`Vector`) and read back with `at1/at2/at3`. -/
@@ -180,5 +179,61 @@ def dhtv {K F T : Nat} (tiny : α) (metric : Metric) (algo : Algo) (plan : List 
   plan.foldl (fun s seg => segmentIter isCos metricDhtv tiny algo seg.2.1 seg.2.2 seg.1 s)
     ⟨feats, tab2 fun k _ => k⟩
 end aligners
+
+end PbBss.Align
+
+namespace PbBss.Align
+
+/-- `apply_inline_permutation_alignment`: `(F, K, T)` affiliation and quadratic form are transposed to
+`(K, F, T)`, the mapping is computed from the affiliation only, both are reordered with it and
+transposed back. -/
+def applyInline {α : Type} {K F T : Nat}
+    (aligner : (Fin K → Fin F → Fin T → α) → Fin K → Fin F → Fin K)
+    (aff quad : Fin F → Fin K → Fin T → α) :
+    (Fin F → Fin K → Fin T → α) × (Fin F → Fin K → Fin T → α) :=
+  let affT : Fin K → Fin F → Fin T → α := fun k f t => aff f k t
+  let m := aligner affT
+  let quadT : Fin K → Fin F → Fin T → α := fun k f t => quad f k t
+  (fun f k t => applyMapping affT m k f t, fun f k t => applyMapping quadT m k f t)
+
+/-- first strict maximum of `g` over a list, `none` playing the role of `-inf`
+(`if value > best_value:` loops of the source) -/
+def firstMaxLoop {β α : Type} [LT α] [DecidableLT α] (g : β → α) :
+    List β → Option (β × α) → Option (β × α)
+  | [], best => best
+  | p :: ps, best =>
+    let v := g p
+    match best with
+    | none => firstMaxLoop g ps (some (p, v))
+    | some (bp, bv) => firstMaxLoop g ps (if bv < v then some (p, v) else some (bp, bv))
+
+section inlinePa
+variable {α : Type} [Add α] [Sub α] [Mul α] [Div α] [OfNat α 0] [OfNat α 1] [Max α] [Transc α]
+  [LT α] [DecidableLT α]
+
+/-- class index after applying a candidate permutation (given as a list, as `itertools` yields it) -/
+def permAt {K : Nat} (p : List Nat) (k : Fin (K+1)) : Fin (K+1) :=
+  if h : p.getD k.val 0 < K+1 then ⟨p.getD k.val 0, h⟩ else k
+
+/-- `log_pdf = spatial_log_pdf[f, permutation, :] + spectral_log_pdf[f, :, :]` for one bin -/
+def inlineLogPdf {K T : Nat} (spatial spectral : Fin (K+1) → Fin T → α) (p : List Nat) :
+    Fin (K+1) → Fin T → α :=
+  fun k t => spatial (permAt p k) t + spectral k t
+
+/-- auxiliary function value of a candidate permutation: `Σ_{k,t} softmax_k(log_pdf)[k,t] * log_pdf[k,t]` -/
+def inlineAux {K T : Nat} (tiny : α) (spatial spectral : Fin (K+1) → Fin T → α) (p : List Nat) : α :=
+  let lp := inlineLogPdf spatial spectral p
+  vsum fun k : Fin (K+1) => vsum fun t : Fin T =>
+    affiliation tiny (fun _ => (1 : α)) (fun j => lp j t) k * lp k t
+
+/-- `log_pdf_to_affiliation_for_integration_models_with_inline_pa` for one frequency bin (no mask, no clipping) -/
+def inlinePa {K T : Nat} (tiny : α) (w : Fin (K+1) → Fin T → α) (spatial spectral : Fin (K+1) → Fin T → α) :
+    Fin (K+1) → Fin T → α :=
+  match firstMaxLoop (inlineAux tiny spatial spectral) (lexPerms (K+1)) none with
+  | some (p, _) =>
+    let lp := inlineLogPdf spatial spectral p
+    fun k t => affiliation tiny (fun j => w j t) (fun j => lp j t) k
+  | none => fun _ _ => 0
+end inlinePa
 
 end PbBss.Align
